@@ -95,6 +95,12 @@ class CGen:
         return e if (" " not in e) else "( %s )" % e
 
     def cond(self, loc):
+        if self.lang != "JAVA" and self.r.random() < 0.15:
+            # an assignment inside the condition, followed by a comparison and a boolean operator: `v = a == b && c`
+            self.hit("e:assign-in-cond")
+            return "%s %s %s %s %s %s %s" % (self.r.choice(loc), self.r.choice(["=", "+=", "|="]), self.paren(self.expr(loc, 1)),
+                                             self.r.choice(["==", "<", "!=", ">="]), self.paren(self.expr(loc, 1)),
+                                             self.r.choice(["&&", "||"]), self.paren(self.expr(loc, 1)))
         e = self.expr(loc, 2)
         if self.lang == "JAVA":
             return "( g0 + %s ) != 0" % self.paren(e)      # never a constant expression (javac rejects unreachable code)
